@@ -1157,7 +1157,8 @@ class Exec:
             out.steps = s1.steps
         else:
             out.steps = (("gsteps", c, s1.steps, s2.steps),)
-        out.asserts = s1.asserts if len(s1.asserts) >= len(s2.asserts) else s2.asserts
+        longer, shorter = (s1.asserts, s2.asserts) if len(s1.asserts) >= len(s2.asserts) else (s2.asserts, s1.asserts)
+        out.asserts = longer + tuple(a_ for a_ in shorter if a_ not in longer)  # union: an assert on the shorter branch is not lost
         out.reads = s1.reads | s2.reads
         out.returned = getattr(s1, "returned", False) and getattr(s2, "returned", False)
         if getattr(s1, "returned", False) != getattr(s2, "returned", False):
@@ -1206,7 +1207,15 @@ class Exec:
             elif how == "step":
                 n = sum(1 for s in self.flat_steps(st.steps) if s[1] == pstr(recv))
                 node = ("step", pstr(recv), g.label, tuple(args[1:]), n)
-                foreign = [k_ for k_, v_ in st.store.m.items() if len(k_) > len(recv) and k_[:len(recv)] == recv]
+                # (a store to the component as a whole counts too, unless it is the post-state of an earlier step of the same component;
+                # gammas of such post-states arise from conditional steps)
+                def own_post(v_):
+                    if isinstance(v_, tuple) and v_ and v_[0] == "post" and isinstance(v_[1], tuple) and v_[1][1] == pstr(recv):
+                        return True
+                    if isinstance(v_, tuple) and v_ and v_[0] == "gamma":
+                        return all(own_post(x_) or x_ == ("pre", pstr(recv)) for x_ in v_[2:4])
+                    return False
+                foreign = [k_ for k_, v_ in st.store.m.items() if k_[:len(recv)] == recv and (len(k_) > len(recv) or not own_post(v_))]
                 if foreign:
                     raise Unsupported("the state of component `%s` is written directly (%s) before it is stepped: only its own methods may change it" % (pstr(recv), pstr(foreign[0])))
                 st.steps = st.steps + (node,)
@@ -1789,6 +1798,21 @@ def evaluate(F, fn, policy=None, arg_terms=None, self_root="self", canon=False):
     if out is None:
         raise Unsupported("function never returns")
     ret = ex.read_path(out, (("L", fr.id, 0),)) if (("L", fr.id, 0),) in out.store.m or out.store.has_descendants((("L", fr.id, 0),)) else UNIT
+    # a store to a whole named root (`*self = Self { .. }`, `mem::swap(self, ..)`): consumers ask for `self.<field>`, so the value is
+    # taken apart field by field; an opaque replacement value is not accepted
+    for k in [k for k in out.store.m if isinstance(k[0], str) and len(k) == 1 and k[0] not in ex.sink_roots]:
+        v = out.store.m[k]
+        if isinstance(v, tuple) and v and v[0] in ("ref", "post"):
+            continue  # (`post`: the whole receiver was stepped through one of its own methods — a delegation)
+        flds = F.struct_fields(fn.self_struct) if (k[0] == self_root and fn.self_struct) else None
+        if not flds:
+            raise Unsupported("the whole of `%s` is replaced by %s" % (k[0], show(v)[:60]))
+        parts = {}
+        for fd in flds:
+            parts[fd["name"]] = ex.read_path(out, k + (fd["name"],))
+        del out.store.m[k]
+        for nm_, pv_ in parts.items():
+            out.store.m[k + (nm_,)] = pv_
     heap = {pstr(k): v for k, v in out.store.m.items() if isinstance(k[0], str)}
     if canon and fn.self_struct is not None and not getattr(F, "_in_typestate", False):
         import typestate
